@@ -53,7 +53,7 @@ Print Assumptions C07_refines.
    next handshake for the same triple sends a full-handshake request. *)
 Theorem C07_drop_on_failure : forall c now t a cm p e,
   cache_ok c -> a <> [] ->
-  lookup_by_command c now t a cm = Some e ->
+  lookup_by_command c now t a cm = Some e -> has_usable_key e = true ->
   (on_resume p (e_id e) = RSidNotFound \/ on_resume p (e_id e) = RBroken) ->
   let c' := fst (client_handshake c now [] t a (Some cm) p) in
   client_action c now [] t a (Some cm) = AResume (e_id e) /\
@@ -73,7 +73,7 @@ Print Assumptions C07_cache_is_a_map.
 (* ConnectAndAuthenticateWithConfig: after such a failure the retry is a full handshake *)
 Theorem C07_retry_is_full : forall c now t a cm p1 p2 e,
   cache_ok c -> a <> [] ->
-  lookup_by_command c now t a cm = Some e ->
+  lookup_by_command c now t a cm = Some e -> has_usable_key e = true ->
   (on_resume p1 (e_id e) = RSidNotFound \/ on_resume p1 (e_id e) = RBroken) ->
   exists c1,
     fst (client_handshake c now [] t a (Some cm) p1) = c1 /\
@@ -126,7 +126,7 @@ Definition ex_60007 : str := [x36; x30; x30; x30; x37].
 Definition ex_valid : str := ex_421 ++ [ch_comma] ++ ex_60007.                  (* "421,60007" *)
 Definition ex_peer (sid : str) (rr : resume_reply) : peer :=
   {| on_full := FOk {| f_sid := sid; f_user := None; f_valid := ex_valid; f_dur := 2100; f_lease := 950;
-                       f_key := Some {| k_data := []; k_proto := [] |}; f_authmethods := []; f_crypto := [] |};
+                       f_key := Some {| k_data := repeat x2a 32; k_proto := s_AES |}; f_authmethods := []; f_crypto := [] |};
      on_resume := fun _ => rr |}.
 Definition ex_history : list event :=
   [ EHandshake ex_tagA ex_addr (Some ex_421) (ex_peer [x53; x31] RAuthorized);   (* full: S1 under tagA *)
